@@ -1,1 +1,2 @@
+pub mod c02;
 pub mod c05;
